@@ -143,6 +143,28 @@ func relRules(c *Ctx) {
 					}
 				}
 				if !ok {
+					// handed as an argument to the goroutine started right after, which defers Stop on that parameter
+					for _, gi := range an.AllInstrs(fn, func(in ssa.Instruction) bool { _, isGo := in.(*ssa.Go); return isGo }) {
+						gc := an.CallCommonOf(gi)
+						mc, isMC := gc.Value.(*ssa.MakeClosure)
+						if !isMC || !P.AfterAll(fn, nt, an.Is(gi)) {
+							continue
+						}
+						gfn := mc.Fn.(*ssa.Function)
+						for i, a := range gc.Args {
+							if !usesValue(P, a, tv) || i >= len(gfn.Params) {
+								continue
+							}
+							for _, s := range P.CallsTo(gfn, stop) {
+								if _, isD := s.(*ssa.Defer); isD && callArg(s, 0) == ssa.Value(gfn.Params[i]) && gfn.Blocks[0] == s.Block() {
+									ok = true
+									det = "passed to the goroutine started right after, which defers Stop on it"
+								}
+							}
+						}
+					}
+				}
+				if !ok {
 					// a deferred closure registered before the creation stops whatever the variable holds at exit
 					for _, r := range *nt.(*ssa.Call).Referrers() {
 						st, isSt := r.(*ssa.Store)
@@ -155,7 +177,8 @@ func relRules(c *Ctx) {
 						}
 						for _, d := range an.AllInstrs(fn, func(in ssa.Instruction) bool { _, isD := in.(*ssa.Defer); return isD }) {
 							mc, isMC := d.(*ssa.Defer).Call.Value.(*ssa.MakeClosure)
-							if !isMC || !P.Before(fn, an.Is(d), nt) {
+							// registered before the creation, or on every path right after it
+							if !isMC || !(P.Before(fn, an.Is(d), nt) || P.AfterAll(fn, nt, an.Is(d))) {
 								continue
 							}
 							g := mc.Fn.(*ssa.Function)
@@ -329,6 +352,21 @@ func onceRules(c *Ctx) {
 		for _, cl := range P.CallsTo(fn, "builtin:close") {
 			n++
 			k, listed := kinds[name]
+			if !listed && an.ClosureRole(fn) == "defer" && fn.Parent() != nil {
+				// a deferred literal of a listed function, registered once (not in a loop): it runs once per run of that
+				// function, like a deferred close written there directly
+				if pk, ok := kinds[an.FuncName(fn.Parent())]; ok && pk != "once" {
+					once := false
+					for _, d := range an.AllInstrs(fn.Parent(), func(in ssa.Instruction) bool { _, isD := in.(*ssa.Defer); return isD }) {
+						if mc, isMC := d.(*ssa.Defer).Call.Value.(*ssa.MakeClosure); isMC && mc.Fn == ssa.Value(fn) && !P.InCycle(d) {
+							once = true
+						}
+					}
+					if once {
+						k, listed = pk+" (in its deferred literal)", true
+					}
+				}
+			}
 			if !listed {
 				q.add("ONCE", "close site is known to run at most once per channel", false, "a channel is closed here and nothing establishes that it happens at most once (a second close panics)", cl)
 				continue
